@@ -622,7 +622,7 @@ class Ctx:
         return self.named(r)
 
     def div(self, a, b):
-        bc = b._const() if b.sz <= 3 else None
+        bc = b._const() if b.sz <= 60 else None      # e.g. (1 - x) + x: a divisor that is a constant after simplification
         if bc is not None:
             if bc == 0:
                 self.safety.append((z3.BoolVal(False), "division by the constant 0", len(self.defs)))
